@@ -66,6 +66,11 @@ def cases(tier):
             if tier == "quick" and al.nedges(mask) > (4 if metric == "planar" else 2):
                 continue
             yield {"metric": metric, "pos": "ZERO", "n": 3, "mask": mask, "tier": tier}
+    # the SQLite backend (its radius queries receive the observation as it is, time component included), with small numeric
+    # time stamps and a finite initial radius
+    for n in (2, 3):
+        for mask in al.masks(n, max_edges=3 if tier == "quick" else None):
+            yield {"metric": "planar", "pos": "GRID", "n": n, "mask": mask, "tier": tier, "backend": "sqlite"}
     # larger named graphs (chains, cycles, re-converging roads) with sparse traces: the internal consistency guards
     # ("monotonic probability", "logprob > 0") must not fire on them either
     yield from special_cases(tier)
@@ -110,17 +115,21 @@ def run_case(case):
         graph = {k: (to_ll(v[0]), list(v[1])) for k, v in g0.items()}
     else:
         graph = g0
-    mp = maps.inmem(graph, use_latlon=latlon)
+    mp = maps.inmem(graph, use_latlon=latlon) if case.get("backend") != "sqlite" else maps.sqlite(graph, use_latlon=latlon)
     if "trace" in case:
         traces = [[tuple(p) for p in case["trace"]]]
     elif "special" in case:
         traces = _ps.special_traces(case["pos"], g0)
     else:
         traces = trace_list(case)
-    cfgs = [case["cfg"]] if "cfg" in case else (CFGS if "special" not in case else [c for c in CFGS if c["ne"] and c["obs_noise"] in (0.1, 1.0, 3.0) and c.get("width") is None])
+    if case.get("backend") == "sqlite" and "cfg" not in case:
+        case = dict(case, cfg_list=[c for c in CFGS if c["fam"] != "SN" and c["obs_noise"] in (1.0, 3.0) and (c.get("max_dist") or c.get("width") is None)])
+    cfgs = [case["cfg"]] if "cfg" in case else case["cfg_list"] if "cfg_list" in case else (CFGS if "special" not in case else [c for c in CFGS if c["ne"] and c["obs_noise"] in (0.1, 1.0, 3.0) and c.get("width") is None])
     for trace in traces:
         tr = [to_ll(p) for p in trace] if latlon else trace
         tr3 = [(p[0], p[1], 1000.0 + 7.0 * i) for i, p in enumerate(tr)]
+        if case.get("backend") == "sqlite":
+            tr3 = [(p[0], p[1], 0.25 * i) for i, p in enumerate(tr)]        # seconds since the start of the trace
         import datetime as _dt
         tr3d = [(p[0], p[1], _dt.datetime(2020, 1, 1, 12, 0, 0) + _dt.timedelta(seconds=7 * i)) for i, p in enumerate(tr)]
         for c in cfgs:
@@ -144,7 +153,7 @@ def run_case(case):
             res["st"] += 1
             res["tv"] += 1
             res["nt"] += 1
-            mini = {k: case[k] for k in ("metric", "pos", "n", "mask", "special") if k in case}
+            mini = {k: case[k] for k in ("metric", "pos", "n", "mask", "special", "backend") if k in case}
             mini.update({"trace": trace, "cfg": c})
             where = f"{case['metric']} {al.describe_graph(g0)} trace {trace} cfg {c}"
             for form, g in zip(("pairs", "triples with a float time", "triples with a datetime time"), got):
@@ -155,13 +164,14 @@ def run_case(case):
                     res["v"].append({"msg": f"{where}: result with (lat, lon, time) triples {got[gi][:3]} differs from the result with pairs {got[0][:3]}",
                                      "case": mini})
             outs.add(got[0][:2])
+    maps.close(mp)
     res["out"] = sorted(outs, key=repr)[:1000]
     res["v"] = res["v"][:20]
     return res
 
 
 def describe(case):
-    d = {k: case[k] for k in case if k != "tier"}
+    d = {k: case[k] for k in case if k not in ("tier", "cfg_list")}
     if "special" not in case:
         d["graph"] = al.describe_graph(al.graph_from_mask(case["n"], case["mask"], al.GRID if case["pos"] == "GRID" else ZERO_POS))
     return d
